@@ -5,6 +5,7 @@ From Verif Require Import Base.Prelude CA.Model.
 From Coq Require Import Sorted.
 Open Scope string_scope.
 Open Scope N_scope.
+Open Scope list_scope.
 
 Local Arguments uri_of : simpl never.
 Local Arguments url_string_eqb : simpl never.
@@ -23,7 +24,7 @@ Proof. apply String.eqb_eq. Qed.
 Definition id_host (id : cert_id) : string :=
   match id with
   | IdService h _ _ _ _ | IdAgent h _ _ _ | IdGateway h _ _ | IdServer h _ => h
-  | IdSigning cl dom => lower (cl ++ "." ++ dom)
+  | IdSigning cl dom => lower (cl ++ "." ++ dom)%string
   end.
 
 Definition id_dc (id : cert_id) : string :=
@@ -133,11 +134,10 @@ Proof.
   unfold provider_sign. intros H; injection H as <- <-.
   destruct (sign_uris_ok _ _ _ _ S Hv) as [Hn Ha].
   exists u, id. cbn [c_uris c_is_ca c_dns c_ips c_serial].
-  repeat split; try assumption; try reflexivity.
-  - apply Hd; assumption.
-  - apply Hn; assumption.
-  - apply Hn; assumption.
-  - apply Ha; assumption.
+  split; [reflexivity|]. split; [exact Hem|]. split; [exact Hp|]. split; [exact Hv|].
+  split; [exact Hg|]. split.
+  { intros Hna. destruct (Hn Hna) as [-> Hl]. repeat split; [apply Hd; exact Hna | exact Hl]. }
+  split; [exact Ha|]. repeat split.
 Qed.
 
 (* The class of requests for which the datacenter / trust-domain clauses fail (agents only). *)
@@ -155,14 +155,19 @@ Definition identity_clauses (e : ca_env) (u : url) (id : cert_id) (crt : cert) :
   exists u', c_uris crt = [u'] /\ lower (u_host u') = trust_domain e /\
              (u' = u \/ (is_agent id = true /\ u' = uri_of (coerce e id))).
 
+Lemma ascii_lower_idem c : ascii_lower (ascii_lower c) = ascii_lower c.
+Proof.
+  unfold ascii_lower at 2 3. destruct (in_range 65 90 (code c)) eqn:R.
+  - unfold ascii_lower, code. rewrite N_ascii_embedding.
+    + replace (in_range 65 90 (N_of_ascii c + 32)) with false; [reflexivity|].
+      unfold in_range, code in *. lia.
+    + unfold in_range, code in R. lia.
+  - unfold ascii_lower. rewrite R. reflexivity.
+Qed.
+
 Lemma lower_idem s : lower (lower s) = lower s.
 Proof.
-  induction s as [|c s IH]; cbn [lower]; [reflexivity|]. f_equal; [|exact IH].
-  unfold ascii_lower. destruct (in_range 65 90 (code c)) eqn:R; [|rewrite R; reflexivity].
-  unfold in_range, code in *. rewrite N_ascii_embedding.
-  - destruct (in_range 65 90 (N_of_ascii c + 32)) eqn:R2; [|reflexivity].
-    unfold in_range in R2. lia.
-  - pose proof (N_ascii_bounded c). lia.
+  induction s as [|c s IH]; cbn [lower]; [reflexivity|]. rewrite ascii_lower_idem, IH. reflexivity.
 Qed.
 
 Lemma parse_host u id : parse_cert_uri u = Ok id -> is_agent id = false ->
@@ -213,7 +218,7 @@ Theorem issue_sound_partial e az c s crt s' :
     (agent_exception e u id = false -> identity_clauses e u id crt).
 Proof.
   intros H. destruct (issue_sound _ _ _ _ _ _ H) as (u & id & Hu & Hem & Hp & Hv & Hg & Hn & Ha & Hca & _ & _ & Hser & _).
-  exists u, id. repeat split; try assumption.
+  exists u, id. do 7 (split; [assumption|]).
   intros Hex. unfold identity_clauses.
   destruct (is_agent id) eqn:Ag.
   - destruct id; try discriminate. cbn [agent_exception] in Hex.
@@ -436,9 +441,9 @@ Lemma fold_insert_covers old idx rs : forall acc ri,
   In ri rs ->
   exists y, In y (fold_left (fun a rj => insert_root (stamp old idx rj) a) rs acc) /\ r_id y = fst ri.
 Proof.
-  assert (Hkeep : forall rs acc id, (exists y, In y acc /\ r_id y = id) ->
-            exists y, In y (fold_left (fun a rj => insert_root (stamp old idx rj) a) rs acc) /\ r_id y = id).
-  { induction rs as [|rj rs IH]; intros acc id H; cbn [fold_left]; [exact H|].
+  assert (Hkeep : forall rs0 acc id, (exists y, In y acc /\ r_id y = id) ->
+            exists y, In y (fold_left (fun a rj => insert_root (stamp old idx rj) a) rs0 acc) /\ r_id y = id).
+  { induction rs0 as [|rj rs0 IH]; intros acc id H; cbn [fold_left]; [exact H|].
     apply IH. apply insert_root_keeps_ids. exact H. }
   induction rs as [|rj rs IH]; intros acc ri Hin; [destruct Hin|].
   cbn [fold_left]. destruct Hin as [->|Hin].
@@ -460,7 +465,7 @@ Proof.
   intros H. pose proof H as H0. unfold root_check_and_set in H.
   destruct (Nat.eqb (count_active rs) 1) eqn:C; cbn [negb] in H; try discriminate.
   destruct (s_roots_idx s =? cidx) eqn:I; cbn [negb] in H; try discriminate.
-  destruct (existsb _ rs); try discriminate.
+  match type of H with (if ?b then _ else _) = _ => destruct b; try discriminate end.
   injection H as <-. split; [apply N.eqb_eq; exact I|]. split; [apply Nat.eqb_eq; exact C|].
   split; [|split].
   - intros x Hx. apply fold_insert_members in Hx as [[]|(ri & Hri & ->)].
@@ -494,7 +499,8 @@ Proof.
     injection C as <-. right. reflexivity.
   - right. split; [reflexivity|]. split; [discriminate|]. intros _. left. reflexivity.
   - left. destruct (cas_yes_replaced _ _ _ _ _ C) as (Hi & Hc & Hr).
-    repeat split; try assumption; try reflexivity; apply Hr.
+    split; [reflexivity|]. split; [exact Hi|]. split; [exact Hc|]. split; [exact Hr|].
+    split; [reflexivity|]. repeat split.
 Qed.
 
 (* Roots and configuration together: both are replaced, or nothing changes. *)
@@ -511,7 +517,8 @@ Proof.
   - intros H; injection H as <- <-. right. split; [reflexivity | discriminate].
   - destruct (config_index_ok s (gi_modify ci)) eqn:G; intros H; injection H as <- <-.
     + left. destruct (cas_yes_replaced _ _ _ _ _ C) as (Hi & Hc & Hr).
-      repeat split; try assumption; try reflexivity; apply Hr.
+      split; [reflexivity|]. split; [exact Hi|]. split; [reflexivity|]. split; [exact Hr|].
+      repeat split.
     + right. split; [reflexivity | discriminate].
 Qed.
 
